@@ -38,6 +38,23 @@ def _merge_shapes(shape1: ir.Shape | None, shape2: ir.Shape | None) -> ir.Shape 
     return ir.Shape([merge_dims(dim1, dim2) for dim1, dim2 in zip(shape1, shape2)])
 
 
+def _name_used_in_subgraphs(graph_like: ir.Graph | ir.Function, name: str | None) -> bool:
+    """Whether a value defined inside a nested subgraph of ``graph_like`` is called ``name``.
+
+    Giving that name to a value of ``graph_like`` could make the subgraph shadow an
+    outer-scope name, which ONNX does not allow.
+    """
+    if not name:
+        return False
+    for graph in graph_like.subgraphs():
+        if name in graph.initializers or any(v.name == name for v in graph.inputs):
+            return True
+        for node in graph:
+            if any(v.name == name for v in node.outputs):
+                return True
+    return False
+
+
 class IdentityEliminationPass(ir.passes.InPlacePass):
     """Pass for eliminating redundant Identity nodes.
 
@@ -101,6 +118,11 @@ class IdentityEliminationPass(ir.passes.InPlacePass):
             or input_value.is_initializer()
             or input_value.graph is not graph_like
         ):
+            return False
+
+        # Eliminating an Identity that produces a graph output renames its input to
+        # the output name. Keep the node if a nested subgraph already uses that name.
+        if output_is_graph_output and _name_used_in_subgraphs(graph_like, output_value.name):
             return False
 
         # Copy over shape/type if the output has more complete information
